@@ -46,6 +46,9 @@ pub struct LifeCfg {
     pub write_faults: bool,
     pub read_faults: bool,
     pub heartbeat: u16,
+    /// a consumer the server cancels is also dropped explicitly by its thread (an operation the call-pairing
+    /// oracles can see) instead of implicitly at the end of the thread
+    pub explicit_drop_after_server_cancel: bool,
 }
 
 #[derive(Clone, Debug)]
@@ -167,6 +170,7 @@ pub fn gen_life(cs: &mut ChoiceStream, lc: &LifeCfg) -> Life {
                 }
                 ConsumerEnd::Drop => ops.push((slot, Op::DropConsumer { slot: c.cslot, whole: false })),
                 ConsumerEnd::DropWhole => ops.push((slot, Op::DropConsumer { slot: c.cslot, whole: true })),
+                ConsumerEnd::ServerCancel { .. } if lc.explicit_drop_after_server_cancel => ops.push((slot, Op::DropConsumer { slot: c.cslot, whole: false })),
                 _ => {}
             }
         }
